@@ -24,8 +24,9 @@ import (
 
 func TestMain(m *testing.M) {
 	harness.Describe(
-		"conversations of 1..4 TCP connections (IPv4, some IPv6; endpoints drawn from small address/port pools so that connections share addresses and ports; ISNs biased to the 2^32 wrap) with two payload streams of 0..65536 bytes each (mostly < 300), segmented by fixed MSS or random sizes (incl. zero-length and 1-byte segments), sent by a harness TCP sender (SYN, SYN+ACK, ACK, data with PSH+ACK, pure ACKs, FIN per direction incl. half-close and FIN riding on data, or RST, or left open), connections interleaved packet by packet, then transformed by 0..5 rapid-drawn edits on the wire list: fragment an IPv4 datagram at 8-byte aligned cut points, duplicate a packet/fragment (copy lands 0..3 places later), swap two adjacent packets, omit a packet (handshake and RST packets are only duplicated). Framing: Ethernet (optionally 802.1Q tagged, optionally padded to 60 bytes), raw IP (101), IPv4 (228), IPv6 (229), Linux SLL, SLL2, BSD loopback in file byte order; pcap LE/BE x usec/nsec, pcapng LE/BE with 1..2 interfaces (possibly different link types, late interface blocks, option lists, unknown/statistics/name-resolution blocks in between, explicit or -1 section length). Observed through the decode tree (TestFlows) and through jq `.tcp_connections[] | .client,.server | {ip, port|toactual, skipped_bytes, stream|tobytes}` / `.ipv4_reassembled[]` (TestFlowsJQ). Non-trivial: (>= 2 connections interleaved or >= 1 effective duplicate/swap/fragmentation/omission) and some direction with >= 2 data segments. distinct = hash of connection specs + file spec + wire list.",
-		"the SYN, SYN+ACK and first ACK of a connection and a closing RST are never omitted, fragmented or swapped with packets of their own connection (without the SYN no observer knows where a stream starts; after a RST the endpoints discard data themselves)",
+		"conversations of 1..4 TCP connections (IPv4, some IPv6; endpoints drawn from small address/port pools so that connections share addresses and ports; ISNs biased to the 2^32 wrap) with two payload streams of 0..65536 bytes each (mostly < 300), segmented by fixed MSS or random sizes (incl. zero-length and 1-byte segments), sent by a harness TCP sender (SYN, SYN+ACK, ACK, data with PSH+ACK, pure ACKs, FIN per direction incl. half-close and FIN riding on data, or RST, or left open), connections interleaved packet by packet, then transformed by 0..5 rapid-drawn edits on the wire list: fragment an IPv4 datagram at 8-byte aligned cut points, duplicate a packet/fragment (copy lands 0..3 places later), swap two adjacent packets, omit a packet (handshake and RST packets are only duplicated), re-segmented retransmission; in 1 of ~50 cases every copy of one SYN+ACK is removed (the server direction of that connection is then not asserted). Framing: Ethernet (optionally 802.1Q tagged, optionally padded to 60 bytes), raw IP (101), IPv4 (228), IPv6 (229), Linux SLL, SLL2, BSD loopback in file byte order; pcap LE/BE x usec/nsec, pcapng LE/BE with 1..2 interfaces (possibly different link types, late interface blocks, option lists, unknown/statistics/name-resolution blocks in between, explicit or -1 section length, sometimes a second section with a fixed small conversation in the opposite byte order in front). Observed through the decode tree (TestFlows) and through jq `.tcp_connections[] | .client,.server | {ip, port|toactual, skipped_bytes, stream|tobytes}` / `.ipv4_reassembled[]` (TestFlowsJQ). Non-trivial: (>= 2 connections interleaved or >= 1 effective duplicate/swap/fragmentation/omission) and some direction with >= 2 data segments. distinct = hash of connection specs + file spec + wire list.",
+		"the SYN, SYN+ACK and first ACK of a connection and a closing RST are never fragmented or swapped with packets of their own connection, the SYN and the RST are never omitted (without the SYN no observer knows where a stream starts; after a RST the endpoints discard data themselves); nothing is (re)transmitted behind the RST of its connection",
+		"connections are matched by their unordered address/port 4-tuple, the order of .tcp_connections is not asserted; for a pcapng file with two sections the flows of all sections together are compared (how fq groups them is not part of the property)",
 		"two connections never use the same unordered address/port 4-tuple (they could not be told apart when interleaved)",
 		"loss at the very end of a direction is only asserted to be signalled when a captured FIN of that direction proves it; a lost tail with nothing captured behind it is unobservable and not asserted",
 		"skipped_bytes is only compared with zero (the statement says non-zero signals loss; the amount is not specified); has_start/has_end are not asserted",
@@ -688,9 +689,6 @@ func diffObs(ex expectation, obs *observation, disordered bool) (fails []failure
 			// class per direction, dependency defects first; see NOTES.md)
 			q, rank := "", 0
 			switch {
-			case e.PeerNoStart:
-				q, rank = "synack-lost:", 2
-				who += " [the SYN+ACK of the peer is not in the capture]"
 			case e.FragOpts:
 				q, rank = "frag-ip-options:", 2
 				who += " [fragmented datagram with IPv4 options]"
@@ -698,6 +696,9 @@ func diffObs(ex expectation, obs *observation, disordered bool) (fails []failure
 				// sequence numbers pass 2^32 while the packets are not simply in order
 				q, rank = "seq-wrap:", 2
 				who += " [sequence numbers pass 2^32]"
+			case e.PeerNoStart:
+				q, rank = "synack-lost:", 2
+				who += " [the SYN+ACK of the peer is not in the capture]"
 			case e.AfterFins:
 				q, rank = "data-after-fins:", 2
 				who += " [data arrives behind both FINs]"
@@ -740,7 +741,8 @@ func diffObs(ex expectation, obs *observation, disordered bool) (fails []failure
 			case o.Skipped == 0 && e.Behind:
 				fail(rank, q+"loss-not-signalled", "bytes from offset %d are missing and later data was captured, but skipped_bytes=0", e.Prefix)
 			case o.Skipped == 0 && e.FinSeen:
-				fail(max(rank, 1), q+"loss-not-signalled-tail", "the last bytes (from offset %d of %d) are missing while the FIN behind them was captured, but skipped_bytes=0", e.Prefix, len(e.Sent))
+				// (one signature for every class: the cause is independent of them)
+				fail(max(rank, 1), "loss-not-signalled-tail", "the last bytes (from offset %d of %d) are missing while the FIN behind them was captured, but skipped_bytes=0", e.Prefix, len(e.Sent))
 			case o.Skipped == 0:
 				labels = append(labels, "tail-loss-unobservable")
 			}
@@ -909,8 +911,11 @@ func runCase(rt *rapid.T, c *harness.Case, jq *fqx.Interp) {
 		if f.Links[0] != pcapgen.LinkEthernet || len(f.Links) == 2 && f.Links[1] != f.Links[0] {
 			c.Label("pcapng-two-sections-other-link-types")
 			fails, _ := diffObs(ex, obs, st.dup+st.swap+st.omit+st.reseg > 0)
-			if len(fails) > 0 {
-				c.Failf("pcapng-sections:"+fails[0].sig, "second section of a pcapng file whose interfaces have other link types than those of the first section: %s", fails[0].msg)
+			for _, fl := range fails {
+				// (failures of the other recorded classes keep their own signature)
+				if fl.rank == 0 {
+					c.Failf("pcapng-sections:"+fl.sig, "second section of a pcapng file whose interfaces have other link types than those of the first section: %s", fl.msg)
+				}
 			}
 		}
 	}
@@ -918,7 +923,7 @@ func runCase(rt *rapid.T, c *harness.Case, jq *fqx.Interp) {
 }
 
 func TestFlows(t *testing.T) {
-	harness.Rapid(t, 24000, 400000, func(rt *rapid.T, c *harness.Case) {
+	harness.Rapid(t, 20000, 400000, func(rt *rapid.T, c *harness.Case) {
 		runCase(rt, c, nil)
 	})
 }
@@ -929,7 +934,7 @@ func TestFlowsJQ(t *testing.T) {
 		t.Fatalf("interp: %v", err)
 	}
 	defer x.Close()
-	harness.Rapid(t, 1600, 24000, func(rt *rapid.T, c *harness.Case) {
+	harness.Rapid(t, 1400, 24000, func(rt *rapid.T, c *harness.Case) {
 		runCase(rt, c, x)
 	})
 }
